@@ -74,6 +74,9 @@ func runC04(ctx *Ctx) *Report {
 	for _, sh := range shapes {
 		addForest(rename(sh))
 	}
+	for _, name := range []string{"deep", "wide", "many-roots", "long-names"} {
+		addForest(bigShapes()[name])
+	}
 	for i := 0; i < nrand; i++ {
 		size := 1 + ctx.Rng.Intn(25)
 		f := randForest(ctx.Rng, size, []string{"plain", "bullets", "blanks", "unicode", "quotes", "path"}, 3, rep.Dist)
